@@ -376,6 +376,12 @@ func DriverMain(args []string) int {
 		replay = abs
 	} else {
 		batches = p.Plan(tier, seed)
+		// development aid only (never set by registered commands): run just the first N batches
+		if s := os.Getenv("VERIF_DEV_BATCHES"); s != "" {
+			if n, err := strconv.Atoi(s); err == nil && n > 0 && n < len(batches) {
+				batches = batches[:n]
+			}
+		}
 	}
 
 	// Build every flavour needed, from /repo's current working tree.
